@@ -49,7 +49,7 @@ func c33Payload(o int64) []byte { return []byte("resolved-payload-" + strconv.Fo
 type c33Decoder struct{ w *c33World }
 
 func (d *c33Decoder) Decode(ctx context.Context, segmentKey, indexKey, topic string, partition int32) ([]decoder.Record, error) {
-	s, err := d.w.OnDecode(segmentKey)
+	s, _, _, _, err := d.w.OnDecode(segmentKey)
 	if err != nil {
 		return nil, err
 	}
